@@ -135,7 +135,9 @@ pub fn check_pair(ctx: &mut Ctx, la: u64, pn: u64, lrs: &[u64]) -> (usize, bool)
         // the receiver can reconstruct iff pn lies in (lr + 1 - hwin, lr + 1 + hwin]
         let in_window = pn + hwin > lr + 1 && pn <= lr + 1 + hwin;
         let want = w::pn_decode(Some(lr), t.value, bits);
-        ctx.verbose(|| format!("  largest_received={lr}: s2n={got} A.3={want} in_window={in_window}"));
+        ctx.verbose(|| {
+            format!("  largest_received={lr}: s2n={got} A.3={want} in_window={in_window}")
+        });
         if in_window && got != pn {
             ctx.violation(
                 PROPERTY,
@@ -161,10 +163,16 @@ pub fn check_pair(ctx: &mut Ctx, la: u64, pn: u64, lrs: &[u64]) -> (usize, bool)
             return (t.len, false);
         }
         if in_window && want != pn {
-            ctx.sum
-                .inconclusive
-                .push(format!("reference A.3 transcription fails for pn={pn} lr={lr} bits={bits}"));
+            ctx.sum.inconclusive.push(format!(
+                "reference A.3 transcription fails for pn={pn} lr={lr} bits={bits}"
+            ));
         }
+    }
+    if t.len >= 2 {
+        ctx.sample(|| {
+            json!({"pn": pn, "largest_acked": la, "wire_bytes": t.len, "rfc_min_bytes": min,
+            "largest_received_tried": lrs.len()})
+        });
     }
     (t.len, true)
 }
@@ -220,8 +228,11 @@ pub fn one(ctx: &mut Ctx, seed: u64, index: u64) {
     lrs.retain(|lr| *lr <= max);
     let (len, ok) = check_pair(ctx, la, pn, &lrs);
     if ok {
-        ctx.sum.signatures.insert(mix(mix(len as u64, edge), la_class));
-        ctx.sum.max("max_distance", dist.min(i64::MAX as u64) as i64);
+        ctx.sum
+            .signatures
+            .insert(mix(mix(len as u64, edge), la_class));
+        ctx.sum
+            .max("max_distance", dist.min(i64::MAX as u64) as i64);
     }
 }
 
